@@ -138,6 +138,10 @@ def _templates():
     add("merge-broadcast", [S("v1", "merge", ["A", "B"], on=["k"], how="inner", suffixes=None, broadcast=True, shuffle_method=None), S("v2", "cols", ["v1"], cols=["k", "rid_x", "rid_y"])])
     add("merge-tasks-two-keys", [S("v1", "merge", ["A", "B"], on=["k", "s"], how="outer", suffixes=None, broadcast=False, shuffle_method="tasks")])
     add("merge-self", [S("v1", "cols", ["A"], cols=["k", "f", "rid"]), S("v2", "merge", ["v1", "v1"], on=["k"], how="inner", suffixes=None, broadcast=None, shuffle_method=None), S("v3", "cols", ["v2"], cols=["f_x", "rid_y"])])
+    # D60: continue on an optimized plan whose fused groups share a source with an unfused branch
+    add("merge-tasks-filtered-sibling-reproj", [S("v1", "filter_pred", ["A"], pred=P("ge", "rid", 3)),
+        S("v2", "merge", ["A", "v1"], on=["s", "i"], how="left", suffixes=None, broadcast=False, shuffle_method="tasks"),
+        S("v3", "cols", ["v2"], cols=["k_x"]), S("v4", "cols", ["v3"], cols=["k_x"])])
     add("merge-then-groupby", [S("v1", "merge", ["A", "B"], on=["k"], how="inner", suffixes=None, broadcast=None, shuffle_method=None), S("v2", "groupby_agg", ["v1"], by=["k"], col="f_x", how="sum", split_out=1, sort=None)])
     add("merge-index", [S("v1", "cols", ["A"], cols=["f", "k"]), S("v2", "cols", ["A"], cols=["g", "rid"]), S("v3", "merge_index", ["v1", "v2"], how="inner"), S("v4", "cols", ["v3"], cols=["f", "rid"])])
     add("concat0-proj", [S("v1", "concat0", ["A", "B"]), S("v2", "cols", ["v1"], cols=["k", "f"])])
